@@ -54,7 +54,14 @@ def justification : List ((String × String × String) × Why) := [
   (("genericTask.run$1", "send", "m.response"), .bufferedReply),
   (("subProcess.run$1", "send", "m.response"), .bufferedReply),
   (("taskTrace.process", "send", "t.response"), .bufferedReply),
-  (("Process.WaitUntilComplete$1", "send", "signal"), .bufferedReply),   -- buffered since the fix of D2 (3a1abd8)
+  (("Process.WaitUntilComplete$1", "send", "signal"), .bufferedReply),
+  -- node loops answering a token: one reply per channel; fine once the channel made by NextAction is buffered
+  (("startEvent.run", "send", "m.response"), .bufferedReply),
+  (("throwEvent.run", "send", "m.response"), .bufferedReply),
+  (("catchEvent.run", "send", "actionChan"), .bufferedReply),
+  (("eventBasedGateway.run", "send", "m.response"), .bufferedReply),
+  (("inclusiveGateway.trySync", "send", "gw.activated.response"), .bufferedReply),
+  (("distributeFlows", "send", "action"), .bufferedReply),   -- buffered since the fix of D2 (3a1abd8)
   (("catchEvent.NextAction", "send", "evt.mch"), .inbox),
   (("catchEvent.ConsumeEvent", "send", "evt.mch"), .inbox),
   (("endEvent.NextAction", "send", "evt.mch"), .inbox),
